@@ -1029,6 +1029,13 @@ func (w *wctx) elemOf(x ast.Expr, method string) []string {
 			}
 		}
 	}
+	// a local tuple put together statement by statement: fields := pk.Tuple{...};
+	// if cond { fields = append(fields, more) }; fields.WriteTo(w)
+	if id, ok := x.(*ast.Ident); ok && isNamed(info.TypeOf(id), pkPath, "Tuple") {
+		if out, ok := w.builtTuple(id, method); ok {
+			return out
+		}
+	}
 	// any(&x).(FieldEncoder) / FieldEncoder(&x): the field is x
 	if ta, ok := x.(*ast.TypeAssertExpr); ok && ta.Type != nil {
 		inner := ast.Unparen(ta.X)
@@ -1067,6 +1074,104 @@ func (w *wctx) elemOf(x ast.Expr, method string) []string {
 		}
 	}
 	return []string{w.kindOf(x)}
+}
+
+// builtTuple: use is the only use of a local pk.Tuple besides the statements that build it at the top
+// level of the function body: its definition by a literal, unconditional appends, and appends under an
+// if without else (an optional tail). Anything else that touches the local makes it unknown.
+func (w *wctx) builtTuple(use *ast.Ident, method string) ([]string, bool) {
+	obj := w.info.Uses[use]
+	if obj == nil || w.m == nil || w.m.decl == nil || w.m.decl.Body == nil {
+		return nil, false
+	}
+	accounted := map[*ast.Ident]bool{use: true}
+	// id = append(id, elems...)
+	appendOf := func(st ast.Stmt) ([]ast.Expr, bool) {
+		as, ok := st.(*ast.AssignStmt)
+		if !ok || as.Tok != token.ASSIGN || len(as.Lhs) != 1 || len(as.Rhs) != 1 {
+			return nil, false
+		}
+		l, ok := as.Lhs[0].(*ast.Ident)
+		if !ok || w.info.Uses[l] != obj {
+			return nil, false
+		}
+		call, ok := ast.Unparen(as.Rhs[0]).(*ast.CallExpr)
+		if !ok || len(call.Args) < 2 || call.Ellipsis.IsValid() {
+			return nil, false
+		}
+		if f, ok := call.Fun.(*ast.Ident); !ok || f.Name != "append" || w.info.Uses[f] != types.Universe.Lookup("append") {
+			return nil, false
+		}
+		a0, ok := ast.Unparen(call.Args[0]).(*ast.Ident)
+		if !ok || w.info.Uses[a0] != obj {
+			return nil, false
+		}
+		accounted[l], accounted[a0] = true, true
+		return call.Args[1:], true
+	}
+	var out []string
+	defined := false
+	for _, st := range w.m.decl.Body.List {
+		if st.Pos() > use.Pos() {
+			break
+		}
+		switch v := st.(type) {
+		case *ast.AssignStmt:
+			if v.Tok == token.DEFINE && len(v.Lhs) == 1 && len(v.Rhs) == 1 {
+				if l, ok := v.Lhs[0].(*ast.Ident); ok && w.info.Defs[l] == obj {
+					cl, ok := ast.Unparen(v.Rhs[0]).(*ast.CompositeLit)
+					if !ok || defined {
+						return nil, false
+					}
+					defined = true
+					out = append(out, w.elemOf(cl, method)...)
+					continue
+				}
+			}
+			if elems, ok := appendOf(v); ok {
+				if !defined {
+					return nil, false
+				}
+				for _, e := range elems {
+					out = append(out, w.elemOf(e, method)...)
+				}
+			}
+		case *ast.IfStmt:
+			if v.Init != nil || v.Else != nil || len(v.Body.List) == 0 {
+				continue
+			}
+			var tail sigPath
+			all := true
+			for _, bs := range v.Body.List {
+				elems, ok := appendOf(bs)
+				if !ok {
+					all = false
+					break
+				}
+				for _, e := range elems {
+					tail = append(tail, w.elemOf(e, method)...)
+				}
+			}
+			if all && defined {
+				out = append(out, "Opt{"+sigSet{tail}.render()+" else []}")
+			}
+		}
+	}
+	if !defined {
+		return nil, false
+	}
+	// every other mention of the local (a write, an alias, a call that takes it) is unaccounted for
+	clean := true
+	ast.Inspect(w.m.decl.Body, func(n ast.Node) bool {
+		if id, ok := n.(*ast.Ident); ok && w.info.Uses[id] == obj && !accounted[id] {
+			clean = false
+		}
+		return clean
+	})
+	if !clean {
+		return nil, false
+	}
+	return out, true
 }
 
 func namedOf(t types.Type) *types.Named {
